@@ -4,6 +4,7 @@ import (
 	"context"
 	"errors"
 	"fmt"
+	"net"
 	"strconv"
 	"strings"
 	"sync"
@@ -84,7 +85,19 @@ func parseC10(s string) c10case {
 	return c
 }
 
+// in every other case whose script refuses a dial, the refusal takes the form of a connect timeout
+func c10TimeoutDials(cs c10case) bool {
+	n := 0
+	for _, d := range cs.dials {
+		n += len(d)
+	}
+	return (n+cs.retries+len(cs.mode))%2 == 0
+}
+
 func c10ErrClass(err error) string {
+	if _, ok := err.(*net.OpError); ok {
+		return "dial" // a connect timeout is a failed dial, not the caller's deadline
+	}
 	switch {
 	case err == nil:
 		return "nil"
@@ -98,7 +111,10 @@ func c10ErrClass(err error) string {
 		return "unavailable"
 	case strings.HasPrefix(err.Error(), "svc-error-from-"):
 		return "svc"
-	case func() bool { se, ok := err.(client.ServiceError); return ok && se.IsServiceError() && err.Error() == "" }():
+	case func() bool {
+		se, ok := err.(client.ServiceError)
+		return ok && se.IsServiceError() && err.Error() == ""
+	}():
 		return "svc" // a service error with an empty text
 	case strings.Contains(err.Error(), "vsrv: connection refused"):
 		return "dial"
@@ -179,7 +195,7 @@ func c10Run(cs c10case, raw bool) (obs string, fails []string) {
 		for _, ch := range cs.dials[i] {
 			d = append(d, ch == '1')
 		}
-		fs := &fakeServer{id: i, dials: d, calls: append([]string{}, cs.calls[i]...), log: log, onCtx: func() { cancel() }}
+		fs := &fakeServer{id: i, dials: d, calls: append([]string{}, cs.calls[i]...), log: log, onCtx: func() { cancel() }, timeout: c10TimeoutDials(cs)}
 		if dl != nil {
 			fs.onDL = dl.expire
 		}
@@ -267,6 +283,30 @@ func c10Run(cs c10case, raw bool) (obs string, fails []string) {
 			break
 		}
 	}
+	// fail-try re-sends and fail-over asks the selector again: a call that ends with a connection-level failure (a
+	// refused or timed-out dial, a lost connection) while its context is alive has used all of its retries+1 tries
+	if (cs.mode == "try" || cs.mode == "over") && (res == "dial" || res == "lost") {
+		tries := len(att)
+		for i, a := range addrs {
+			fakeMu.Lock()
+			fs := fakeSrvs[a]
+			fakeMu.Unlock()
+			if fs == nil {
+				continue
+			}
+			fs.mu.Lock()
+			n := fs.nDials
+			fs.mu.Unlock()
+			for k := 0; k < n && k < len(cs.dials[i]); k++ {
+				if cs.dials[i][k] == '0' {
+					tries++
+				}
+			}
+		}
+		if tries < cs.retries+1 {
+			fails = append(fails, fmt.Sprintf("gave-up-early|mode %s, %d retries: the call ended with a connection-level failure (%s) after %d of its %d tries (requests delivered: %v), its context still alive", cs.mode, cs.retries, res, tries, cs.retries+1, att))
+		}
+	}
 	if cs.mode == "try" {
 		for _, a := range att {
 			if strings.SplitN(a, ":", 2)[0] != strings.SplitN(att[0], ":", 2)[0] {
@@ -292,7 +332,7 @@ func c10RunBackup(cs c10case) (obs string, fails []string) {
 		for _, ch := range cs.dials[i] {
 			d = append(d, ch == '1')
 		}
-		fs := &fakeServer{id: i, dials: d, calls: append([]string{}, cs.calls[i]...), log: log, ctrl: ctrl}
+		fs := &fakeServer{id: i, dials: d, calls: append([]string{}, cs.calls[i]...), log: log, ctrl: ctrl, timeout: c10TimeoutDials(cs)}
 		registerFake(addr, fs)
 		addrs = append(addrs, addr)
 		keys = append(keys, "vsrv@"+addr)
